@@ -71,6 +71,53 @@ Theorem C05_refcounter_retain_matches_source : forall w r n, cnt (retain1 w r n)
 Proof. exact bridge_rc_retain_sync. Qed.
 Print Assumptions C05_refcounter_kernel_matches_source.
 
+(* ---- _emit bridges (harness/mkprops_emit.py): begin ---- *)
+(* Stream._emit, Stream._retain_refs and Stream._release_refs are the ones regenerated from the source under test on this
+   run: Gen/KN__refs.v and Gen/KN__emit.v are written by harness/gen_emit.py from the python AST of streamz/core.py,
+   statement by statement, in the world-level monad of Base/MiniPyW.v (an exception raised by `downstream.update` unwinds
+   the loop; the returned list of awaitables is represented by the status only).  Base/BridgeEmit.v proves that they are
+   the model's retain / release / push: `downstream.update` is the parameter call_update (log the call, evaluate the node's
+   update, run its action list with the recursive push), `self.downstreams` is read through the model's downs, and the
+   model's deliver is that call followed by the release - unless the call unwinds. *)
+From SZ Require Import Base.MiniPyW Base.BridgeEmit.
+Theorem C05_run_retain_refs_matches_source :
+  forall m n w, Gen.KN__refs.gen_body__retain_refs m n w = WRet tt (retain w m n).
+Proof. exact bridge_run_retain_refs. Qed.
+Print Assumptions C05_run_retain_refs_matches_source.
+Theorem C05_run_release_refs_matches_source :
+  forall m n w, Gen.KN__refs.gen_body__release_refs m n w = WRet tt (release w m n).
+Proof. exact bridge_run_release_refs. Qed.
+Print Assumptions C05_run_release_refs_matches_source.
+Theorem C05_retain_refs_matches_source :
+  forall w m n, Gen.KN__refs.gen_retain_refs w m n = retain w m n.
+Proof. exact bridge_retain_refs. Qed.
+Print Assumptions C05_retain_refs_matches_source.
+Theorem C05_release_refs_matches_source :
+  forall w m n, Gen.KN__refs.gen_release_refs w m n = release w m n.
+Proof. exact bridge_release_refs. Qed.
+Print Assumptions C05_release_refs_matches_source.
+Theorem C05_emit_matches_source :
+  forall fuel g depth n w x m,
+  push (S fuel) g depth n w x m =
+  Gen.KN__emit.gen_emit (fun w => downs g w n) (call_update_of fuel g depth n) w x m.
+Proof. exact bridge_emit. Qed.
+Print Assumptions C05_emit_matches_source.
+Theorem C05_emit_matches_source_any_callee :
+  forall emitfrom g depth n w x m,
+  (let ds := downs g w n in
+   fold_left (deliver emitfrom g depth n x m) ds (retain w m (Z.of_nat (length ds)), SOk)) =
+  Gen.KN__emit.gen_emit (fun w => downs g w n) (call_update emitfrom g depth n) w x m.
+Proof. exact bridge_emit_gen. Qed.
+Print Assumptions C05_emit_matches_source_any_callee.
+Theorem C05_deliver_is_call_then_release :
+  forall emitfrom g depth n x m w s d, status_go s = true ->
+  deliver emitfrom g depth n x m (w, s) d =
+  let '(w', s') := call_update emitfrom g depth n d w x m in
+  if status_go s' then (release w' m 1, status_join s s') else (w', s').
+Proof. exact deliver_call_release. Qed.
+Print Assumptions C05_deliver_is_call_then_release.
+(* ---- _emit bridges (harness/mkprops_emit.py): end ---- *)
+
 (* ---- node bridges (harness/mkprops_nodes.py): begin ---- *)
 (* The update methods of the node classes are the ones regenerated from the source under test on this run:
    Gen/KN_<class>.v is written by harness/gen_nodes.py from the python AST of streamz/core.py, statement by statement,
